@@ -633,7 +633,7 @@ func (w *responseWriter) synthesise(orig *dns.Msg) (*dns.Msg, error) {
 	// the A records carry — short-lived A records intentionally
 	// keep DNS64 answers short-lived too.
 	ttl := noSOATTLCeiling
-	if negTTL := negativeAAAATTL(orig); negTTL > 0 {
+	if negTTL, ok := negativeAAAATTL(orig); ok {
 		ttl = negTTL
 	}
 	for _, a := range addresses {
@@ -888,19 +888,24 @@ func isCachedFailureResponse(ctx context.Context, m *dns.Msg) bool {
 }
 
 // negativeAAAATTL returns the SOA-derived minimum negative TTL of
-// the original AAAA response, or 0 if no SOA is present. RFC 2308
-// — the negative TTL is min(SOA.MINIMUM, SOA.TTL).
-func negativeAAAATTL(m *dns.Msg) uint32 {
+// the original AAAA response, and whether an SOA was present at all.
+// RFC 2308 — the negative TTL is min(SOA.MINIMUM, SOA.TTL).
+//
+// Zero is a TTL like any other, so absence is reported separately: a
+// negative answer served from the cache in the last second of its life
+// shows SOA TTL 0, and reading that as "no SOA" would swap the shortest
+// bound there is for the 600 s no-SOA ceiling.
+func negativeAAAATTL(m *dns.Msg) (uint32, bool) {
 	for _, rr := range m.Ns {
 		if soa, ok := rr.(*dns.SOA); ok {
 			ttl := soa.Hdr.Ttl
 			if soa.Minttl > 0 && soa.Minttl < ttl {
 				ttl = soa.Minttl
 			}
-			return ttl
+			return ttl, true
 		}
 	}
-	return 0
+	return 0, false
 }
 
 // classifyQueryErr collapses queryer errors to a small label set so
